@@ -315,6 +315,8 @@ func lemma_block_no_leak(i *ignore, meta *ast.Meta) {
 //@   only-writers [C18] F:linter.Linter.Errors : Error
 
 // ---- C09 (return actions only): the action checked against the scope is the identifier, not its rendering ---
+//@ func (*Linter).lintFunctionCallExpression [C09]
+//@   callassert [function-is-named-by-its-identifier C09] lintFunctionArguments: arg2.name == exp.Function.Value
 //@ func (*Linter).lintReturnStatement [C09]
 //@   callassert [action-is-the-identifier C09] expectState: is(stmt.ReturnExpression, *ast.Ident) && stmt.ReturnExpression.(*ast.Ident) != nil ==> arg0 == stmt.ReturnExpression.(*ast.Ident).Value
 
